@@ -1025,6 +1025,7 @@ func prologueField(res *Result) string {
 		mapped = c.MapRoot
 	}
 	kind, cfg, ok := "n", "-", 0
+	cfgArch := "-"
 	if c.Platform != "" {
 		n := g.Nodes[mapped]
 		switch n.Kind {
@@ -1042,6 +1043,10 @@ func prologueField(res *Result) string {
 				want = dag.MTDockerConfig
 			}
 			ok = b2i(cn.Desc.MediaType == want)
+			var p ocispec.Platform
+			if json.NewDecoder(bytes.NewReader(cn.Bytes)).Decode(&p) == nil && p.OS == "linux" && archID[p.Architecture] > 0 {
+				cfgArch = fmt.Sprint(archID[p.Architecture])
+			}
 		default:
 			kind = "o"
 		}
@@ -1055,7 +1060,21 @@ func prologueField(res *Result) string {
 		o = "-"
 	}
 	r0 := g.Nodes[c.Root]
-	return fmt.Sprintf("pr=%d:%d:%d:%s:%s:%d:%d:%d:%s ", b2i(c.RefFetch), c.Root, mapped, kind, cfg, ok, b2i(r0.IsManifest()), b2i(len(r0.Bytes) == 0), o)
+	// for an image target: wanted architecture, the config's architecture, and what Copy selected (the node it
+	// returned; "-" = it failed before copying; "?" = not observable, the run failed later)
+	sel := "?"
+	if res.Err == nil {
+		sel = fmt.Sprint(res.Root2)
+		for _, n := range g.Nodes {
+			if n.Desc.Digest == res.Returned.Digest && n.Desc.MediaType == res.Returned.MediaType {
+				sel = fmt.Sprint(n.ID)
+			}
+		}
+	} else if len(res.Toks) == 1 {
+		sel = "-"
+	}
+	want := fmt.Sprintf("%d.%d.%d", archID[c.Platform], b2i(c.PlatVar != ""), b2i(c.PlatFeat != ""))
+	return fmt.Sprintf("pr=%d:%d:%d:%s:%s:%d:%d:%d:%s:%s:%s:%s ", b2i(c.RefFetch), c.Root, mapped, kind, cfg, ok, b2i(r0.IsManifest()), b2i(len(r0.Bytes) == 0), o, want, cfgArch, sel)
 }
 
 // refsField renders the source / destination reference of a Copy and every reference string the
